@@ -1,0 +1,292 @@
+//! Event recorder for the parallel string-merge protocol (`string_merging.rs`). Compiled only with
+//! the `verif` feature; does nothing unless `WILD_VERIF_MTRACE=<file>` is set.
+//!
+//! Every instrumented shared-memory operation of the protocol (the `available` atomic of
+//! `ReusePool`, the `unprocessed` queue, the per-(group, bucket) slot mutexes, the
+//! `finished_buckets` queue) is bracketed by `hold()` ... `rel(event)`: `hold` takes one global
+//! recorder lock and parks the guard in a thread-local, `rel` appends the event (with a global
+//! atomic sequence number) while the lock is still held, releases it and then calls
+//! `perturb(point)`. The recorded order is therefore a linearisation of the operations: two
+//! operations never overlap while tracing is on. With tracing off `hold`/`rel` are no-ops.
+//!
+//! `perturb(point)` is driven by `WILD_VERIF_SCHED`:
+//!   * `<seed>` (decimal): pseudo-random (splitmix64 of seed, thread number, per-thread counter)
+//!     choice between nothing (5/8), `yield_now` (2/8) and a sleep of 20..=400 microseconds (1/8);
+//!   * `spin:<k>`: sleep 3 ms at point `after-spawn` (the statement after `scope.spawn` in
+//!     `try_spawn_input_processing`) for the first `k` visits, nothing elsewhere. This lets the
+//!     spawned input task finish (pop, unreserve) before the spawning loop loads `available`
+//!     again, which is the schedule on which that loop keeps reserving although no input group is
+//!     left.
+//!
+//! Trace file format: one line per `add_input_sections` call,
+//! `begin,<G>,<B>,<cap>,<avail>;<event>;...;end,<avail>,<finished>`; events are
+//!   `ld,<owner>,<value>`            `available.load` in `try_reserve`
+//!   `cs,<owner>,<seen>,<0|1>`       `compare_exchange(seen, seen - num_vecs)` failed / succeeded
+//!   `pp,<g>` / `pp,-`               `unprocessed.pop()` returned group g / None
+//!   `sw,<g>,<b>,<prev>`             `swap_strings_slot(g, b, Strings(..))` returned prev
+//!   `ur,<r>`                        `unreserve` with `remaining == r` (r = 0: returns early)
+//!   `tk,<b>,<n>,<found>`            `work_with_bucket`: slot (n, b) replaced by Empty, found = old
+//!   `rt,<b>,<n>`                    `return_strings_to_merge`: `available.fetch_add(1)`
+//!   `fn,<b>,<n>`                    bucket pushed to `finished_buckets`
+//! `<owner>` is `m` (the scope body) or `<b>.<n>` (bucket task b working on group n); slot kinds
+//! are `e` (Empty), `s` (Strings), `w<b>.<n>` (WaitingForStrings(bucket b, next group n)).
+
+use std::cell::Cell;
+use std::cell::RefCell;
+use std::io::Write as _;
+use std::sync::Mutex;
+use std::sync::MutexGuard;
+use std::sync::OnceLock;
+use std::sync::atomic::AtomicU64;
+use std::sync::atomic::AtomicUsize;
+use std::sync::atomic::Ordering;
+
+pub const ENV_TRACE: &str = "WILD_VERIF_MTRACE";
+pub const ENV_SCHED: &str = "WILD_VERIF_SCHED";
+
+#[derive(Clone, Copy, Debug)]
+pub enum SlotKind {
+    Empty,
+    Strings,
+    Waiting(usize, usize),
+}
+
+#[derive(Clone, Copy, Debug)]
+pub enum Ev {
+    Load(usize),
+    Cas(usize, bool),
+    Pop(Option<usize>),
+    Swap(usize, usize, SlotKind),
+    Unreserve(usize),
+    Take(usize, usize, SlotKind),
+    Return,
+    Finish(usize, usize),
+}
+
+struct Recorder {
+    path: String,
+    events: Vec<(u64, String)>,
+    in_section: bool,
+}
+
+enum Sched {
+    Off,
+    Random(u64),
+    Spin(u64),
+}
+
+static RECORDER: OnceLock<Option<Mutex<Recorder>>> = OnceLock::new();
+static SCHED: OnceLock<Sched> = OnceLock::new();
+static SEQ: AtomicU64 = AtomicU64::new(0);
+static SPINS: AtomicU64 = AtomicU64::new(0);
+static THREADS: AtomicUsize = AtomicUsize::new(0);
+
+thread_local! {
+    static HELD: RefCell<Option<MutexGuard<'static, Recorder>>> = const { RefCell::new(None) };
+    /// `None` = the scope body ("main"), `Some((b, n))` = bucket task b working on group n.
+    static OWNER: Cell<Option<(usize, usize)>> = const { Cell::new(None) };
+    static THREAD_NO: Cell<usize> = const { Cell::new(usize::MAX) };
+    static COUNTER: Cell<u64> = const { Cell::new(0) };
+}
+
+fn recorder() -> Option<&'static Mutex<Recorder>> {
+    RECORDER
+        .get_or_init(|| {
+            std::env::var(ENV_TRACE).ok().map(|path| {
+                Mutex::new(Recorder {
+                    path,
+                    events: Vec::new(),
+                    in_section: false,
+                })
+            })
+        })
+        .as_ref()
+}
+
+pub fn enabled() -> bool {
+    recorder().is_some()
+}
+
+fn sched() -> &'static Sched {
+    SCHED.get_or_init(|| match std::env::var(ENV_SCHED) {
+        Err(_) => Sched::Off,
+        Ok(s) => {
+            if let Some(k) = s.strip_prefix("spin:") {
+                Sched::Spin(k.parse().unwrap_or(0))
+            } else {
+                s.parse().map_or(Sched::Off, Sched::Random)
+            }
+        }
+    })
+}
+
+fn splitmix(mut z: u64) -> u64 {
+    z = z.wrapping_add(0x9E37_79B9_7F4A_7C15);
+    z = (z ^ (z >> 30)).wrapping_mul(0xBF58_476D_1CE4_E5B9);
+    z = (z ^ (z >> 27)).wrapping_mul(0x94D0_49BB_1331_11EB);
+    z ^ (z >> 31)
+}
+
+/// Pseudo-random delay at a named point of the protocol. Never changes any protocol state.
+pub fn perturb(point: &str) {
+    match sched() {
+        Sched::Off => {}
+        Sched::Spin(k) => {
+            if point == "after-spawn" && SPINS.fetch_add(1, Ordering::Relaxed) < *k {
+                std::thread::sleep(std::time::Duration::from_millis(3));
+            }
+        }
+        Sched::Random(seed) => {
+            let t = THREAD_NO.with(|c| {
+                if c.get() == usize::MAX {
+                    c.set(THREADS.fetch_add(1, Ordering::Relaxed));
+                }
+                c.get()
+            });
+            let n = COUNTER.with(|c| {
+                c.set(c.get() + 1);
+                c.get()
+            });
+            let mut h = splitmix(*seed ^ splitmix(t as u64 ^ (n << 16)));
+            for b in point.bytes() {
+                h = splitmix(h ^ u64::from(b));
+            }
+            match h & 7 {
+                0..=4 => {}
+                5 | 6 => std::thread::yield_now(),
+                _ => std::thread::sleep(std::time::Duration::from_micros(20 + (h >> 8) % 381)),
+            }
+        }
+    }
+}
+
+/// Takes the global recorder lock and keeps it (in a thread-local) until `rel`/`rel_if_held`.
+pub fn hold() {
+    let Some(rec) = recorder() else {
+        return;
+    };
+    let guard = rec.lock().unwrap_or_else(|e| e.into_inner());
+    HELD.with(|h| {
+        let mut h = h.borrow_mut();
+        debug_assert!(h.is_none());
+        *h = Some(guard);
+    });
+}
+
+pub fn is_held() -> bool {
+    HELD.with(|h| h.borrow().is_some())
+}
+
+fn kind_str(k: SlotKind) -> String {
+    match k {
+        SlotKind::Empty => "e".to_owned(),
+        SlotKind::Strings => "s".to_owned(),
+        SlotKind::Waiting(b, n) => format!("w{b}.{n}"),
+    }
+}
+
+fn owner_str() -> String {
+    match OWNER.with(Cell::get) {
+        None => "m".to_owned(),
+        Some((b, n)) => format!("{b}.{n}"),
+    }
+}
+
+fn render(ev: Ev) -> (String, &'static str) {
+    match ev {
+        Ev::Load(a) => (format!("ld,{},{a}", owner_str()), "load"),
+        Ev::Cas(seen, ok) => (format!("cs,{},{seen},{}", owner_str(), u8::from(ok)), "cas"),
+        Ev::Pop(Some(g)) => (format!("pp,{g}"), "pop"),
+        Ev::Pop(None) => ("pp,-".to_owned(), "pop"),
+        Ev::Swap(g, b, k) => (format!("sw,{g},{b},{}", kind_str(k)), "swap"),
+        Ev::Unreserve(r) => (format!("ur,{r}"), "unreserve"),
+        Ev::Take(b, n, k) => (format!("tk,{b},{n},{}", kind_str(k)), "take"),
+        Ev::Return => {
+            let (b, n) = OWNER.with(Cell::get).unwrap_or((usize::MAX, usize::MAX));
+            (format!("rt,{b},{n}"), "return")
+        }
+        Ev::Finish(b, n) => (format!("fn,{b},{n}"), "finish"),
+    }
+}
+
+/// Records `ev` under the lock taken by `hold`, releases the lock, then perturbs.
+pub fn rel(ev: Ev) {
+    if !enabled() {
+        return;
+    }
+    let (text, point) = render(ev);
+    HELD.with(|h| {
+        let mut h = h.borrow_mut();
+        if let Some(mut guard) = h.take() {
+            if guard.in_section {
+                let seq = SEQ.fetch_add(1, Ordering::SeqCst);
+                guard.events.push((seq, text));
+            }
+        }
+    });
+    perturb(point);
+}
+
+/// `hold` + `rel` for operations that touch no shared protocol state.
+pub fn event(ev: Ev) {
+    if !enabled() {
+        return;
+    }
+    hold();
+    rel(ev);
+}
+
+/// If the lock taken by `hold` has not been released by a `rel` in between, release it with `ev`.
+pub fn rel_if_held(ev: Ev) {
+    if is_held() {
+        rel(ev);
+    }
+}
+
+pub fn set_owner(bucket: usize, group: usize) {
+    OWNER.with(|o| o.set(Some((bucket, group))));
+}
+
+pub fn clear_owner() {
+    OWNER.with(|o| o.set(None));
+}
+
+/// Start of one `add_input_sections` (called by the thread that runs the scope body).
+pub fn begin(groups: usize, buckets: usize, capacity: usize, available: usize) {
+    let Some(rec) = recorder() else {
+        return;
+    };
+    clear_owner();
+    let mut r = rec.lock().unwrap_or_else(|e| e.into_inner());
+    r.events.clear();
+    r.in_section = true;
+    let seq = SEQ.fetch_add(1, Ordering::SeqCst);
+    r.events
+        .push((seq, format!("begin,{groups},{buckets},{capacity},{available}")));
+}
+
+/// End of the rayon scope of one `add_input_sections`: appends the section's trace to the file.
+pub fn end(available: usize, finished: usize) {
+    let Some(rec) = recorder() else {
+        return;
+    };
+    let mut r = rec.lock().unwrap_or_else(|e| e.into_inner());
+    let seq = SEQ.fetch_add(1, Ordering::SeqCst);
+    r.events.push((seq, format!("end,{available},{finished}")));
+    r.in_section = false;
+    debug_assert!(r.events.windows(2).all(|w| w[0].0 < w[1].0));
+    let line = r
+        .events
+        .iter()
+        .map(|(_, e)| e.as_str())
+        .collect::<Vec<_>>()
+        .join(";");
+    r.events.clear();
+    if let Ok(mut f) = std::fs::OpenOptions::new()
+        .create(true)
+        .append(true)
+        .open(&r.path)
+    {
+        let _ = writeln!(f, "{line}");
+    }
+}
